@@ -289,7 +289,7 @@ def memo_rule(prog, rep):
                                         bad.append((f, n, t.attr))
     for f, n, a in bad:
         rep.ob("R9", "%s: self.%s is recomputed on every call, not kept when it already exists" % (f.qualname, a), False, f.site(n),
-               "assignment guarded by `%s`: after a regrid the field would keep the value of the old point positions" % mod.code(n.test)[:80], key="memo/%s/%s" % (f.qualname, a))
+               "definite: assignment guarded by `%s`: after a regrid the field would keep the value of the old point positions" % mod.code(n.test)[:80], key="memo/%s/%s" % (f.qualname, a))
     rep.ob("R9", "no geometry-phase method memoises a region field (%d methods reachable from the phases)" % nfun, not bad, MESH, "", key="memo/none")
     rep.floor("R9.phase-methods", nfun, 8)
 
